@@ -212,7 +212,7 @@ class TreeGen:
         self.refs = []
         self.nrefs = 0
 
-    def pick(self, pool, used, dup=0.12):
+    def pick(self, pool, used, dup=0.07):
         rng = self.rng
         free = [s for s in pool if s not in used]
         if free and not (used and rng.random() < dup):
@@ -283,7 +283,7 @@ class TreeGen:
             r = rng.random()
             cands = real["block"] + real["register"] + real["register"] + real["command"]
             mode = "good"
-            if r < 0.70 and cands:
+            if r < 0.78 and cands:
                 t = rng.choice(cands)
                 if t["kind"] == "block" and any(p is t for p in parents[id(ref)]) and rng.random() < 0.6:
                     others = [c for c in cands if not (c["kind"] == "block" and any(p is c for p in parents[id(ref)]))]
@@ -291,7 +291,7 @@ class TreeGen:
                         t = rng.choice(others)
                 kind = t["kind"]
                 target = self.respell(t["name"])
-            elif r < 0.83 and (real["buffer"] + [x for x in real["ref"] if x is not ref] + cands):
+            elif r < 0.88 and (real["buffer"] + [x for x in real["ref"] if x is not ref] + cands):
                 mode = "wrong_kind"
                 t = rng.choice(real["buffer"] + [x for x in real["ref"] if x is not ref] + cands)
                 kind = rng.choice([k for k in ("block", "register", "command") if k != t["kind"]])
